@@ -407,5 +407,13 @@ package sbom
 //@   requires validNL(nl) && validNL(nl2) && separatedNL(nl, nl2)
 //@   assigns nl.Nodes, nl.Edges, nl.RootElements, (nl.Edges)[*]
 //@   ensures [validNL] validNL(nl)
+//@   ensures [arrays] (arr(nl.Nodes) == old(arr(nl.Nodes)) || fresh(arr(nl.Nodes))) && (arr(nl.Edges) == old(arr(nl.Edges)) || fresh(arr(nl.Edges))) && nl.RootElements == old(nl.RootElements)
 //@   invariant L0: validNL(nl) && validNL(nl2) && nl2.Nodes == old(nl2.Nodes) && (arr(nl2.Nodes) == nil || arr(nl.Nodes) != arr(nl2.Nodes))
+//@   invariant L0: (arr(nl.Nodes) == old(arr(nl.Nodes)) || fresh(arr(nl.Nodes))) && (arr(nl.Edges) == old(arr(nl.Edges)) || fresh(arr(nl.Edges)))
 //@   invariant L1: validNL(nl) && validNL(nl2)
+//@   invariant L1: (arr(nl.Nodes) == old(arr(nl.Nodes)) || fresh(arr(nl.Nodes))) && (arr(nl.Edges) == old(arr(nl.Edges)) || fresh(arr(nl.Edges)))
+
+//@ func NewNodeIdentifier
+//@   props C04, C05
+//@   assigns \nothing
+//@   ensures [C05:identifier:nonEmpty] result != ""
